@@ -67,6 +67,10 @@ inductive Op
   | setTunnelCommunity (attach : Bool) (hops : Nat)
   /-- Community.__init__ of an overlay with the given community id and `settings.anonymize` -/
   | overlay (cid : Bytes) (anonymize : Bool)
+  /-- Community.__init__ of an overlay whose `settings.endpoint` is NOT a TunnelEndpoint although its sends end up in
+      `TunnelEndpoint.send` (a decorator such as StatisticsEndpoint sits in front): the `isinstance` guard fails, only a
+      warning is logged; the overlay still registers as a listener (decorators forward `add_prefix_listener`) -/
+  | overlayForeign (cid : Bytes) (anonymize : Bool)
   | newCircuit (goalHops : Nat) (ctype : CType)
   | addHop (idx : Nat) (h : Hop)
   | close (idx : Nat)
@@ -223,6 +227,9 @@ def step (s : State) : Op → State × List Event
       ({ s with settings := if anon then dictSet s.settings (overlayPrefix cid) true else s.settings,
                 plisteners := s.plisteners ++ [(overlayPrefix cid, { lid := 1000 + s.nextOverlay, anonymize := some anon })],
                 nextOverlay := s.nextOverlay + 1 }, [])
+  | .overlayForeign cid anon =>
+      ({ s with plisteners := s.plisteners ++ [(overlayPrefix cid, { lid := 1000 + s.nextOverlay, anonymize := some anon })],
+                nextOverlay := s.nextOverlay + 1 }, [])
   | .newCircuit g t =>
       ({ s with comm := { s.comm with
             circuits := s.comm.circuits ++ [{ cid := s.comm.nextId, goalHops := g, ctype := t, closing := false, hops := [] }],
@@ -241,6 +248,12 @@ def step (s : State) : Op → State × List Event
   | .addListener l => ({ s with listeners := s.listeners ++ [l] }, [])
   | .notify ft p => (s, notify s ft p)
   | .unloadOverlay lid => ({ s with plisteners := s.plisteners.filter (fun e => e.2.lid ≠ lid) }, [])
+
+/-- `ipv8_service.IPv8.__init__` loading the configured overlays `(community id, initialize.anonymize)`: each gets the
+    outermost decorator as its endpoint, so the opt-in works iff that is the TunnelEndpoint -/
+def serviceOps (stats : Bool) (ovs : List (Bytes × Bool)) : List Op :=
+  let top := (serviceWrappers stats (ovs.any (·.2))).getLast?
+  ovs.map (fun o => if top = some .tunnel then Op.overlay o.1 o.2 else Op.overlayForeign o.1 o.2)
 
 /-- the state after a history -/
 def runState (s : State) : List Op → State
